@@ -3,6 +3,7 @@ CONSTANTS
   Rec = {1, 2, 3}
   Thread = {1, 2}
   Orig = {1, 2}
+  MaxNest = 2
   Deviations = {}
   Depth = 6
 SPECIFICATION GenSpec
